@@ -160,3 +160,21 @@ func init() {
 		o.def("searchPathWritesNothingShared", "Bool", lbool(ok), "the read path of the index (Search, greedyClosestNeighbor, searchLevel, selectNeighbors*) assigns to local variables only and calls nothing but the read-only callees of the unchanged code")
 	})
 }
+
+// C12 / C01: the greedy descent ends. Every move of `greedyClosestNeighbor` goes to a neighbour that is
+// *strictly* closer than anything seen so far (`distance < minDistance`, false for NaN), so the running
+// minimum strictly decreases along a walk over finitely many vertices; a move that is also taken when the
+// minimum is NaN (seeded change C12-E) walks for ever on a query whose distances are all NaN.
+func init() {
+	extractors = append(extractors, func(o *out) {
+		f := parseFile("index/hnsw.go")
+		ok := false
+		if fd := funcDecl(f, "Hnsw", "greedyClosestNeighbor"); fd != nil {
+			b := norm(fd.Body)
+			ok = strings.Contains(b, "ifdistance:=this.space.Distance(query,neighbor.vector);distance<minDistance{minDistance=distanceclosestNeighbor=neighbor}") &&
+				strings.Count(b, "minDistance=") == 1 && strings.Count(b, "closestNeighbor=") == 1 &&
+				strings.Contains(b, "ifclosestNeighbor==nil{break}entrypoint=closestNeighbor")
+		}
+		o.def("greedyDescentStrictlyImproves", "Bool", lbool(ok), "greedyClosestNeighbor moves only to a neighbour strictly closer than the running minimum (false for NaN) and stops when there is none")
+	})
+}
